@@ -42,35 +42,9 @@ fn build(chains: &BTreeMap<(usize, LogIdT), Vec<Op>>, g: &Grid) -> ([MemStore; 2
     (stores, [logs.clone(), logs])
 }
 
-pub fn run(mut rep: Report) -> i32 {
-    let thorough = rep.thorough();
-    let max_n = if thorough { 10 } else { 5 };
-    let max_dev = if thorough { 3 } else { 2 };
-    let caps = [0usize, 1, 2, 4, 8];
-    let mut chains = BTreeMap::new();
-    for a in 0..2 {
-        for l in 0..2u64 {
-            chains.insert((a, l), make_chain(a, l, max_n, None));
-        }
-    }
-    let mut grid = vec![];
-    for &c in &caps {
-        for authors in 1..=2 {
-            for na in 0..=max_n {
-                for nb in 0..=max_n {
-                    grid.push(Grid { c, na, nb, authors });
-                }
-            }
-        }
-    }
-    rep.rule = format!(
-        "grid capacity {{0,1,2,4,8}} x operations only A holds 0..={max_n} x operations only B holds 0..={max_n} x 1-2 authors; all scheduler and select! start-branch choices with <= {max_dev} deviations; non-trivial = grid point where both sides have something to send"
-    );
-    let part = format!("bounded transport grid, deviations<={max_dev}");
-    let wall = Instant::now() + Duration::from_secs(if thorough { 560 } else { 40 });
-    let grid_len = grid.len();
-    let grid = crate::c19::spread(grid);
-    let mut acc = par_for(&grid, rep.args.threads, wall, |_, (idx, g), acc: &mut Acc| {
+/// Explore every grid point with the given deviation bound.
+fn explore(chains: &BTreeMap<(usize, LogIdT), Vec<Op>>, grid: &[(usize, Grid)], max_dev: usize, threads: usize, wall: Instant) -> Acc {
+    par_for(grid, threads, wall, |_, (idx, g), acc: &mut Acc| {
         let idx = *idx;
         let mut dead = 0u64;
         let st = dfs(
@@ -164,28 +138,87 @@ pub fn run(mut rep: Report) -> i32 {
         if dead == 0 && g.na > 0 && g.nb > 0 {
             acc.sample(idx as u64, || json!({"capacity": g.c, "ops_a": g.na, "ops_b": g.nb, "authors": g.authors, "result": "all explored schedules complete"}));
         }
-    });
-    rep.transitions += acc.steps;
-    // Pull the table entries out of the violation map and attach them to the deadlock findings.
-    let table: BTreeMap<String, String> = acc
-        .viol
-        .iter()
-        .filter(|(k, _)| k.starts_with("~table/"))
-        .map(|(k, v)| (k.trim_start_matches("~table/").to_string(), v.1.clone()))
-        .collect();
-    acc.viol.retain(|k, _| !k.starts_with("~table/"));
-    let table_txt = table.iter().map(|(k, v)| format!("{k}: {v}")).collect::<Vec<_>>().join(", ");
-    for (k, v) in acc.viol.iter_mut() {
-        if k.starts_with("deadlock/") {
-            v.1 = format!("{} | smallest deadlocking volume (ops only on A + ops only on B) per capacity/authors: {table_txt}", v.1);
+    })
+}
+
+pub fn run(mut rep: Report) -> i32 {
+    let thorough = rep.thorough();
+    let max_n = if thorough { 10 } else { 5 };
+    let max_dev = if thorough { 3 } else { 2 };
+    let caps = [0usize, 1, 2, 4, 8];
+    // thorough only: one larger capacity with volumes up to 17, deviations <= 2
+    let (big_c, big_n, big_dev) = (16usize, 17usize, 2usize);
+    let mut chains = BTreeMap::new();
+    for a in 0..2 {
+        for l in 0..2u64 {
+            chains.insert((a, l), make_chain(a, l, if thorough { big_n } else { max_n }, None));
+        }
+    }
+    let mut grid = vec![];
+    for &c in &caps {
+        for authors in 1..=2 {
+            for na in 0..=max_n {
+                for nb in 0..=max_n {
+                    grid.push(Grid { c, na, nb, authors });
+                }
+            }
+        }
+    }
+    let mut big = vec![];
+    if thorough {
+        for authors in 1..=2 {
+            for na in 0..=big_n {
+                for nb in 0..=big_n {
+                    big.push(Grid { c: big_c, na, nb, authors });
+                }
+            }
+        }
+    }
+    rep.rule = format!(
+        "grid capacity {{0,1,2,4,8}} x operations only A holds 0..={max_n} x operations only B holds 0..={max_n} x 1-2 authors, all scheduler and select! start-branch choices with <= {max_dev} deviations{}; non-trivial = grid point where both sides have something to send",
+        if thorough { format!("; plus capacity {big_c} x 0..={big_n} x 0..={big_n} x 1-2 authors with <= {big_dev} deviations") } else { String::new() }
+    );
+    let start = Instant::now();
+    let budget = if thorough { 560.0 } else { 40.0 };
+    let grid_len = grid.len() + big.len();
+    let grid = crate::c19::spread(grid);
+    let big = crate::c19::spread(big.into_iter().collect::<Vec<_>>());
+    // indices of the second grid continue after the first one (ranks stay unique)
+    let big: Vec<(usize, Grid)> = big.into_iter().map(|(i, g)| (i + grid.len(), g)).collect();
+    let threads = rep.args.threads;
+    let mut acc = explore(&chains, &grid, max_dev, threads, start + Duration::from_secs_f64(budget * if thorough { 0.6 } else { 1.0 }));
+    let mut acc_big = explore(&chains, &big, big_dev, threads, start + Duration::from_secs_f64(budget));
+    rep.transitions += acc.steps + acc_big.steps;
+    // Pull the table entries out of the violation maps and attach them to the deadlock findings.
+    let mut table: BTreeMap<String, String> = BTreeMap::new();
+    for a in [&mut acc, &mut acc_big] {
+        for (k, v) in a.viol.iter().filter(|(k, _)| k.starts_with("~table/")) {
+            table.insert(k.trim_start_matches("~table/").to_string(), v.1.clone());
+        }
+        a.viol.retain(|k, _| !k.starts_with("~table/"));
+    }
+    let order = |k: &String| k.trim_start_matches('c').split('/').next().and_then(|x| x.parse::<usize>().ok()).unwrap_or(0);
+    let mut rows: Vec<(&String, &String)> = table.iter().collect();
+    rows.sort_by_key(|(k, _)| (order(k), (*k).clone()));
+    let table_txt = rows.iter().map(|(k, v)| format!("{k}: {v}")).collect::<Vec<_>>().join(", ");
+    for a in [&mut acc, &mut acc_big] {
+        for (k, v) in a.viol.iter_mut() {
+            if k.starts_with("deadlock/") {
+                v.1 = format!("{} | smallest deadlocking volume (ops only on A + ops only on B) per capacity/authors: {table_txt}", v.1);
+            }
         }
     }
     rep.set("smallest_deadlocking_volume", json!(table));
-    rep.set("per_capacity", json!(acc.counters));
+    let mut counters = acc.counters.clone();
+    counters.extend(acc_big.counters.clone());
+    rep.set("per_capacity", json!(counters));
     rep.set("grid_points", json!(grid_len));
-    acc.into_report(&mut rep, &part, max_dev);
+    acc.into_report(&mut rep, &format!("bounded transport grid capacities {{0,1,2,4,8}}, deviations<={max_dev}"), max_dev);
+    if thorough {
+        acc_big.into_report(&mut rep, &format!("bounded transport grid capacity {big_c}, deviations<={big_dev}"), big_dev);
+    }
     rep.assume("capacity c: poll_ready is Pending while c items are queued; c = 0: an item is accepted only while the receiver task is parked in poll_next and has not started sending since");
-    rep.assume("volumes above the grid and capacities other than {0,1,2,4,8} are not explored; the property is unbounded in both");
+    rep.assume("volumes above the grid and capacities other than {0,1,2,4,8} (thorough: and 16) are not explored; the property is unbounded in both");
     rep.assume("MemStore stands in for SqliteStore (store calls complete without yielding)");
     rep.finish()
 }
